@@ -61,6 +61,7 @@ class Tr:
         self.tmp = 0
         self.loops = []          # emitted loop definitions (text)
         self.nloop = 0
+        self.nif = 0
         self.loop = None         # (carried names, has_break) while translating a loop body
         self.check_supported_offset()
 
@@ -491,12 +492,12 @@ class Tr:
         names = self.assigned(list(s.body) + list(s.orelse))
         # types of names first bound inside: translate the branches on copies of the environment
         saved = dict(self.env)
-        dry = (list(self.loops), self.nloop, self.tmp)             # dry run of both branches: only the types are kept
+        dry = (list(self.loops), self.nloop, self.tmp, self.nif)             # dry run of both branches: only the types are kept
         self.block(list(s.body), ind + 2, "pure ()"); env_t = self.env
         self.env = dict(saved)
         self.block(list(s.orelse), ind + 2, "pure ()"); env_e = self.env
         self.env = dict(saved)
-        self.loops, self.nloop, self.tmp = dry
+        self.loops, self.nloop, self.tmp, self.nif = dry
         names = [n for n in names if n in saved or n in env_t or n in env_e]     # loop-local names stay local
         for n in names:
             if n not in self.env:
@@ -520,6 +521,19 @@ class Tr:
         self.env = dict(inner)
         el = self.block(list(s.orelse), ind + 2, ret)
         self.env = pre
+        if self.loop is None and ind == 1:
+            # a top-level `if` statement becomes a definition of its own (like the `for` statements)
+            self.nif += 1
+            k = self.nif
+            text = "\n".join(th + el) + "\n" + c
+            free = [v for v in pre if v in inner and re.search(r"(?<![\w.])%s(?![\w])" % re.escape(v), text)]
+            d = "/-- `if` statement %d (source line %d): the names it assigns -/\n" % (k, s.lineno)
+            d += "def readTzfile_if%d %s : Py.R (%s) :=\n" % (k, " ".join("(%s : %s)" % (v, LEAN_TY[inner[v]]) for v in free),
+                                                             self.tup_ty(names))
+            d += "  if %s then do\n" % c + "\n".join(l[2:] for l in th) + "\n  else do\n" + "\n".join(l[2:] for l in el) + "\n"
+            self.loops.append(d)
+            lines.append("%slet %s ← readTzfile_if%d %s" % (pad, self.tup(names), k, " ".join(free)))
+            return lines + self.block(rest, ind, tail)
         lines.append("%slet %s ← ((if %s then do" % (pad, self.tup(names), c))
         lines += th + ["%s  else do" % pad] + el
         lines.append("%s  ) : Py.R (%s))" % (pad, self.tup_ty(names)))
@@ -609,10 +623,29 @@ class Tr:
         formals = [a.arg for a in fn.args.args]
         if formals != ["self", "fileobj"]: raise Untranslatable("signature of _read_tzfile is %s" % formals)
         self.env = {"fileobj": "File"}
-        body = self.block(fn.body, 1, "throw Py.PyErr.TypeError  -- falls off the end (returns None)")
-        text = "\n".join(self.loops)
+        # two definitions, split after the statement that replaces the type indices by objects (the first list
+        # comprehension): `readTzfile_decode` (stream -> tables and objects) and `readTzfile_build` (derived attributes)
+        cut = [k for k, st in enumerate(fn.body) if isinstance(st, ast.Assign) and isinstance(st.value, ast.ListComp)]
+        if not cut: raise Untranslatable("no index-replacement statement to split at")
+        k = cut[0] + 1
+        part1 = self.block(fn.body[:k], 1, "@@LIVE@@")
+        n1 = len(self.loops)
+        env1 = dict(self.env)
+        part2 = self.block(fn.body[k:], 1, "throw Py.PyErr.TypeError  -- falls off the end (returns None)")
+        text2 = "\n".join(part2) + "\n" + "\n".join(self.loops[n1:])
+        live = [v for v in env1 if re.search(r"(?<![\w.])%s(?![\w])" % re.escape(v), text2)]
+        live_ty = "(" + " × ".join(LEAN_TY[env1[v]] for v in live) + ")"
+        text = "\n".join(self.loops[:n1])
+        text += "/-- translated from `tzfile._read_tzfile`, first part: the stream is decoded into tables and `_ttinfo` objects -/\n"
+        text += "def readTzfile_decode (data : List UInt8) : Py.R %s := do\n" % live_ty
+        text += "  let fileobj : TzifPy.File := TzifPy.File.ofBytes data\n"
+        text += "\n".join(part1).replace("@@LIVE@@", "pure (%s)" % ", ".join(live)) + "\n\n"
+        text += "\n".join(self.loops[n1:])
+        text += "/-- translated from `tzfile._read_tzfile`, second part: the derived attributes -/\n"
+        text += "def readTzfile_build %s : Py.R TzifPy.Out := do\n" % " ".join("(%s : %s)" % (v, LEAN_TY[env1[v]]) for v in live)
+        text += "\n".join(part2) + "\n\n"
         text += "/-- translated from `tzfile._read_tzfile` -/\ndef readTzfile (data : List UInt8) : Py.R TzifPy.Out := do\n"
-        text += "  let fileobj : TzifPy.File := TzifPy.File.ofBytes data\n" + "\n".join(body) + "\n"
+        text += "  let (%s) ← readTzfile_decode data\n  readTzfile_build %s\n" % (", ".join(live), " ".join(live))
         return text, hashlib.sha256(ast.dump(fn).encode()).hexdigest()[:16]
 
 
